@@ -5,6 +5,12 @@ ROOT = os.path.dirname(os.path.dirname(os.path.abspath(__file__)))
 
 # id -> (level category, technique, level text, level note, design ref)
 BUILT = {
+ "C08": ("exploration", "proptest statement-level interleavings over cloned handles vs a snapshot-isolation model (anomalies classified)",
+         "Generated interleavings of 2-3 cloned handles (autocommit statements and explicit transactions; point writes, full and point reads; WAL on/off) issued from one thread so the schedule is owned; a snapshot-isolation model predicts every read and which COMMITs may succeed; each divergence is classified as dirty read / non-repeatable read / phantom / lost update / own write invisible / other.",
+         "The five classic anomaly classes are listed findings (TurDB has no isolation between handles) and are tolerated by signature; any other divergence (a value never written, a failing COMMIT/ROLLBACK without conflict) is a violation. Real-thread races are out of reach (schedule not owned).", "4 C08"),
+ "C13": ("exploration", "proptest statement templates x parameter values x parameter routes, differential against the harness's own literal rendering on a twin database",
+         "17 templates (SELECT/INSERT/UPDATE/DELETE; anonymous and positional placeholders, one directly after '-', IN lists, LIMIT) x values (negative and extreme ints, exponent floats, NULL, text with quotes, comment markers, semicolons, backslashes, injection strings) x routes (execute_with_params, prepared execute once/twice = cached plan, BoundStatement::query); results and table contents (incl. a bystander table) must equal the literal twin's.",
+         "Routes/statement kinds named by the listed findings are gated (parameters in WHERE for SELECT/DELETE through execute paths, cached-plan second runs); INSERT/UPDATE parameters and the text-substitution route remain in the generated search.", "4 C13"),
  "C11": ("exploration", "proptest (type, value, write path, read point) round trip through SQL",
          "Generated values of every column type the SQL layer accepts (integer extremes, NaN/inf/+-0/subnormals, text and blobs from empty through the TOAST threshold and chunk sizes to MBs, UTF-8-valid blobs, Unicode, DATE/TIME/TIMESTAMP over years 1..9999, UUID, JSONB, VECTOR), written by INSERT or UPDATE as literal or bound parameter, must read back with the same type and value right after the write and after reopen.",
          "Floats compared bitwise (any NaN for NaN), JSON by value. A 17-byte BLOB starting 0xFE is never executed in-process (aborts the process; listed under C31).", "4 C11"),
